@@ -119,7 +119,11 @@ def run(ctx, only=None):
     d = tempfile.mkdtemp(prefix='verif_c15_')
     try:
         env = dict(os.environ)
-        cli_texts = [t for t in rng.sample(inputs.spec_texts(), ncli * 2) if only_lf(t)]
+        # designed first: whitespace at the end of lines is significant (hard breaks, code), as are form feeds and a missing final newline
+        designed = ['foo  \nbar\n', 'foo   \nbar', '```\ncode   \n \n```\n', '    code  \t\n\n    more \n', 'a\\\nb\n', 'tab\there\t\nx\n', '> q  \n> r\n',
+                    '- a  \n  b\n', '| a  | b |\n| - | - |\n| c | d  |\n', '<pre>\nx  \n</pre>\n', 'a \n===\n', '# h  \n', ' \n \nx \n \n']
+        cli_texts = designed + [t for t in rng.sample(inputs.spec_texts(), ncli * 2) if only_lf(t)]
+        ncli = ncli + len(designed) // 2
         import mistletoe
         for i in range(ncli):
             rp = RENDERERS[i % 4]
